@@ -1,6 +1,8 @@
 import Heph.Model.Pickle
 import Heph.Generated.PickleClasses
 import Heph.Proofs.PickleStable
+import Heph.Proofs.PickleLoad
+import Heph.Proofs.PickleFuel
 /-!
 # C13 — saved programs replay faithfully (partial: the abstract pickle machine)
 
@@ -8,6 +10,16 @@ import Heph.Proofs.PickleStable
 of `Heph/Model/Pickle.lean` (`dump` = the pickler's traversal with its memo, `load` = the unpickler's
 VM); `harness/check_C13.py` ties that machine to CPython on every explored program (op-code streams
 equal element-wise, rebuilt graphs isomorphic) and judges the property on the real code directly.
+
+Proved for ALL heaps: `load_dump_iso_proved` (loading what was dumped rebuilds an isomorphic graph — a simulation
+between the pickler's run and the VM's run on the emitted stream, `Heph/Proofs/PickleLoad*.lean`),
+`redump_after_load` (if the pickler visits every cell, the loaded heap has the same size, is again fully visited
+and dumps to the SAME op-codes), `redump_same_if_defined` (every heap: if the loaded heap dumps at all, then to the
+same op-codes), `redump_stable`, `dump_stable_partial` (equal sizes), `dump_stable_defined` (any sizes, both dumps
+defined), `dump_stable_up` (from the smaller heap to the larger), `keys_ready_partial` (the VM with the
+hash accounting switched on accepts every dumped stream), `observation_congruence`, `keys_ready_counterexample`.
+Stated, not proved: `dump_stable` / `redump_after_load_full` (that DEFINEDNESS of `dump` is independent of
+unvisited cells: the fuel is computed from the heap size), `keys_ready` (that the count is 0 under `noKeyCycle`).
 -/
 namespace Heph.Props.C13
 open Heph.Pickle
@@ -25,10 +37,17 @@ def Dumpable (h : Heap) (r : Val) : Prop := ∃ ops, dump h r = some ops
 
 /-! ## the property at full strength (statements) -/
 
-/-- loading what was dumped rebuilds an isomorphic graph -/
+/-- loading what was dumped rebuilds an isomorphic graph (proved below: `load_dump_iso_proved`) -/
 def load_dump_iso : Prop :=
   ∀ (h : Heap) (r : Val) (ops : List Op), dump h r = some ops →
     ∃ h' r', load ops = some (h', r') ∧ Iso h r h' r'
+
+/-- dumping a loaded program again gives the same op-codes, without any proviso (follows from `load_dump_iso`
+and the full `dump_stable`; proved below under the proviso that the pickler visits every cell:
+`redump_after_load`) -/
+def redump_after_load_full : Prop :=
+  ∀ (h : Heap) (r : Val) (ops : List Op), dump h r = some ops →
+    ∃ h' r', load ops = some (h', r') ∧ dump h' r' = some ops
 
 /-- the op-code stream is invariant under isomorphism; with `load_dump_iso`: dumping a loaded program
 again gives the same op-codes -/
@@ -91,13 +110,56 @@ theorem dump_stable_partial {h h' : Heap} {r r' : Val} (iso : Iso h r h' r') (hs
     dump h r = dump h' r' :=
   dump_eq_of_iso iso hsz
 
-/-- dumping a loaded program again gives the same op-codes, for every heap on which the round trip yields an
-isomorphic heap of the same size (checked by `isoCheck` on every explored program) -/
-theorem redump_stable {h h' : Heap} {r r' : Val} {ops : List Op} (_hd : dump h r = some ops)
-    (_hl : load ops = some (h', r')) (iso : Iso h r h' r') (hsz : h.size = h'.size) :
-    dump h' r' = some ops := by
+/-! ## load ∘ dump -/
+
+/-- **load_dump_iso, proved**: for every heap, root and fuel-adequate run of the pickler, the unpickler's VM
+accepts the emitted stream and rebuilds an isomorphic rooted heap.  Proof (`Heph/Proofs/PickleLoadBase.lean` …
+`PickleLoad.lean`): an invariant `Inv` between the pickler's state and the VM's state after the op-codes
+emitted so far — the memo maps every memoised address to the address of its rebuilt object (injective, only
+grows), every FINISHED object is related to its rebuilt object with children in order, objects in progress
+(memoised before their contents: list, dict, set, instance, reduction) are related once their last
+APPENDS / SETITEMS / ADDITEMS / BUILD has run; cycles go through the memo.  `dump` refuses cells that stand for
+no Python object (`cellOK`: class names are strings, `type(obj)` is a class), as it refuses dangling references. -/
+theorem load_dump_iso_proved : load_dump_iso := by
+  intro h r ops hd
+  obtain ⟨h', r', hl, iso, _⟩ := load_dump_iso_count hd
+  exact ⟨h', r', hl, iso⟩
+
+/-- the rebuilt heap has exactly one cell per object the pickler memoised (no garbage is built) -/
+theorem load_size {h : Heap} {r : Val} {ops : List Op} (hd : dump h r = some ops) :
+    ∃ h' r', load ops = some (h', r') ∧ dumpCount h r = some h'.size := by
+  obtain ⟨h', r', hl, _, hc⟩ := load_dump_iso_count hd
+  exact ⟨h', r', hl, hc⟩
+
+/-- dumping a loaded program again gives the same op-codes whenever the loaded heap has as many cells as the
+original (the isomorphism is no longer a hypothesis) -/
+theorem redump_stable {h h' : Heap} {r r' : Val} {ops : List Op} (hd : dump h r = some ops)
+    (hl : load ops = some (h', r')) (hsz : h.size = h'.size) : dump h' r' = some ops := by
+  obtain ⟨h2, r2, hl2, iso⟩ := load_dump_iso_proved h r ops hd
+  rw [hl] at hl2
+  cases hl2
   rw [← dump_stable_partial iso hsz]
-  exact _hd
+  exact hd
+
+/-- **redump_after_load**: if the pickler visits every cell of the heap (`dumpCount h r = some h.size`: as many
+memoised objects as cells — what `harness/export_heap.py` produces, tested by the driver on every explored
+graph), then the loaded heap is isomorphic, has the same size, is again visited completely, and dumps to the
+SAME op-codes; so the round trip can be iterated.  Missing for `redump_after_load_full`: heaps with unvisited
+cells (full `dump_stable`). -/
+theorem redump_after_load {h : Heap} {r : Val} {ops : List Op} (hd : dump h r = some ops)
+    (hall : dumpCount h r = some h.size) :
+    ∃ h' r', load ops = some (h', r') ∧ Iso h r h' r' ∧ h'.size = h.size ∧
+      dumpCount h' r' = some h'.size ∧ dump h' r' = some ops :=
+  roundtrip hd hall
+
+/-- **keys_ready, proved part**: with the hash accounting switched on (any table `hr` of hash-reading classes),
+the VM accepts every dumped stream, so the number of unready key insertions is defined.  Missing for
+`keys_ready`: that the number is 0 under `noKeyCycle` (needs soundness of the executable `reach` /
+`hashedInsts` on the partially built heap). -/
+theorem keys_ready_partial (hr : String → String → Bool) {h : Heap} {r : Val} {ops : List Op}
+    (hd : dump h r = some ops) : ∃ n, unreadyKeys hr ops = some n := by
+  obtain ⟨_, _, L, _, _, _, _, hrun, _, _⟩ := dump_run hr hd
+  exact ⟨L.unready, by simp [unreadyKeys, hrun]⟩
 
 /-- the hypotheses of `dump_stable_partial` are satisfiable by two differently numbered heaps with sharing and a
 cycle (a list containing a shared string and itself) -/
@@ -128,6 +190,63 @@ example : Iso hA (.ref 0) hB (.ref 1) ∧ hA.size = hB.size := by
       simp [fAB] at ha; subst ha
       exact ⟨_, _, rfl, rfl, rfl⟩
     | n + 2 => simp [fAB] at ha
+
+/-! ## heaps of different sizes -/
+
+/-- **dump_stable, second proved part**: isomorphic rooted heaps of ANY sizes have the same op-code stream
+whenever both dumps are defined (`save` is monotone in its fuel, `Heph/Proofs/PickleFuel.lean`, and the simulation
+of two pickler runs holds for every common fuel).  Missing for the full `dump_stable`: that definedness itself does
+not depend on the number of unvisited cells (adequacy of the fuel `(size+1)²+1` of the smaller heap). -/
+theorem dump_stable_defined {h h' : Heap} {r r' : Val} {ops ops' : List Op} (iso : Iso h r h' r')
+    (hd : dump h r = some ops) (hd' : dump h' r' = some ops') : ops = ops' :=
+  dump_eq_of_iso_defined iso hd hd'
+
+/-- **dump_stable, third proved part**: the stream of the smaller heap is also the stream of the larger one
+(definedness transfers upwards) -/
+theorem dump_stable_up {h h' : Heap} {r r' : Val} {ops : List Op} (iso : Iso h r h' r') (hsz : h.size ≤ h'.size)
+    (hd : dump h r = some ops) : dump h' r' = some ops :=
+  dump_up_of_iso iso hsz hd
+
+/-- for EVERY dumpable heap (no proviso on unvisited cells): the stream loads, and if the loaded heap can be
+dumped at all, its op-codes are the original ones -/
+theorem redump_same_if_defined {h : Heap} {r : Val} {ops : List Op} (hd : dump h r = some ops) :
+    ∃ h' r', load ops = some (h', r') ∧ ∀ ops', dump h' r' = some ops' → ops' = ops := by
+  obtain ⟨h', r', hl, iso⟩ := load_dump_iso_proved h r ops hd
+  exact ⟨h', r', hl, fun ops' hd' => (dump_stable_defined iso hd hd').symm⟩
+
+/-- the hypotheses of `dump_stable_defined` are satisfiable by heaps of different sizes: `hA` plus a cell the
+pickler never visits -/
+def hC : Heap := #[.list [.ref 1, .ref 1, .ref 0], .str "a", .str "never visited"]
+def fAC : Nat → Option Nat
+  | 0 => some 0
+  | 1 => some 1
+  | _ => none
+
+example : Iso hA (.ref 0) hC (.ref 0) ∧ hA.size ≠ hC.size ∧ (dump hA (.ref 0)).isSome = true ∧
+    (dump hC (.ref 0)).isSome = true := by
+  refine ⟨⟨fAC, ⟨?_, rfl, ?_⟩⟩, by decide, by decide, by decide⟩
+  · intro a b c ha hb
+    match a, b with
+    | 0, 0 => rfl
+    | 1, 1 => rfl
+    | 0, 1 => simp [fAC] at ha hb; omega
+    | 1, 0 => simp [fAC] at ha hb; omega
+    | 0, n + 2 => simp [fAC] at hb
+    | 1, n + 2 => simp [fAC] at hb
+    | n + 2, _ => simp [fAC] at ha
+  · intro a a' ha
+    match a with
+    | 0 =>
+      simp [fAC] at ha; subst ha
+      exact ⟨_, _, rfl, rfl, .cons rfl (.cons rfl (.cons rfl .nil))⟩
+    | 1 =>
+      simp [fAC] at ha; subst ha
+      exact ⟨_, _, rfl, rfl, rfl⟩
+    | n + 2 => simp [fAC] at ha
+/-- the hypotheses of `dump_stable_up` -/
+example : hA.size ≤ hC.size ∧ (dump hA (.ref 0)).isSome = true := by decide
+/-- a heap with an unvisited cell: `redump_after_load`'s proviso fails, `redump_same_if_defined` applies -/
+example : dumpCount hC (.ref 0) = some 2 ∧ hC.size = 3 := by decide
 
 /-! ## concrete heaps: non-vacuity and the counterexample -/
 
@@ -190,5 +309,13 @@ example : (dump exHeap (.ref 0)).bind (unreadyKeys hr) = some 0 := by decide
 example : ((dump exHeap (.ref 0)).bind load).map (fun p => isoCheck exHeap (.ref 0) p.1 p.2) = some true := by
   decide +kernel
 example : ((dump exHeap (.ref 0)).bind load).bind (fun p => dump p.1 p.2) = dump exHeap (.ref 0) := by decide +kernel
+/-- the proviso of `redump_after_load` holds for `exHeap` (and for `hA`): every cell is visited -/
+example : dumpCount exHeap (.ref 0) = some exHeap.size := by decide
+example : (dump hA (.ref 0)).isSome = true ∧ dumpCount hA (.ref 0) = some hA.size := by decide
+/-- the hypotheses of `redump_stable` are satisfiable -/
+example : (dump hA (.ref 0)).isSome = true ∧
+    ((dump hA (.ref 0)).bind load).map (fun p => p.1.size) = some hA.size := by decide
+/-- cells that stand for no Python object are refused by `dump` (a class whose names are not strings) -/
+example : dump #[.global .none .none] (.ref 0) = none := by decide
 
 end Heph.Props.C13
